@@ -417,6 +417,10 @@ def run(prog, rep, tier):
     rep.rule('FORM-scale-exponent', 'case analysis of _scale_axis_B over the values form_diff '
              'is compared with: the power of S applied equals form_diff')
     check_scale_exponent(prog, rep)
+    rep.rule('DTYPE-all-tensors', 'dtypes of operators over a list of tensors are promoted over '
+             'all elements')
+    if check_dtype_all(prog, rep) < 5:
+        raise AnalysisError('DTYPE-all-tensors: dtype assignments in the network classes not found')
     rep.floor('FORM-scale-exponent', 5)
     rep.floor('FORM-isometry', 8)
     rep.assumptions += ['nothing about the represented vector, Schmidt values or entropies is '
@@ -566,4 +570,48 @@ def check_scale_exponent(prog, rep):
                           'for form_diff = %s the tensor is scaled with S**%s instead of S**%s: '
                           'conversions to / from the symmetric form C (exponents 1/2) change '
                           'the state' % (v, got, v), f.lineno)
+    return n
+
+
+# ------------------------------------------------------------------ DTYPE-all-tensors
+def check_dtype_all(prog, rep):
+    """DTYPE-all-tensors: the tensors of an MPS may have different dtypes (one complex tensor
+    after a complex local operator). A dtype that parametrises an operator over a LIST of tensors
+    (transfer matrix, environment) must be promoted over all elements: an expression
+    `L[const].dtype` on a local list of tensors feeding `dtype` is a first-element-only promotion."""
+    n = 0
+    for rel in ('tenpy/networks/mps.py', 'tenpy/networks/mpo.py', 'tenpy/networks/uniform_mps.py',
+                'tenpy/networks/purification_mps.py'):
+        m = prog.module(rel)
+        for q, f in m.functions.items():
+            lists = set()
+            for st in stmts_of(f):
+                if isinstance(st, ast.Assign):
+                    v = st.value
+                    if isinstance(v, (ast.ListComp, ast.List)) or (
+                            isinstance(v, ast.Call) and call_name(v) in ('list', 'reversed')):
+                        for t in st.targets:
+                            for x in ast.walk(t):
+                                if isinstance(x, ast.Name) and isinstance(x.ctx, ast.Store):
+                                    lists.add(x.id)
+            for st in stmts_of(f):
+                if not isinstance(st, ast.Assign):
+                    continue
+                tgt = unparse(st.targets[0])
+                if 'dtype' not in tgt:
+                    continue
+                n += 1
+                firsts = [x for x in ast.walk(st.value) if isinstance(x, ast.Attribute) and
+                          x.attr == 'dtype' and isinstance(x.value, ast.Subscript) and
+                          isinstance(x.value.value, ast.Name) and x.value.value.id in lists and
+                          isinstance(x.value.slice, (ast.Constant, ast.UnaryOp))]
+                if firsts:
+                    rep.violation('DTYPE-all-tensors', m, q, 'first-only:' + tgt,
+                                  '`%s` takes the dtype from `%s` only, although `%s` is a list '
+                                  'of tensors that may have different dtypes: with a complex '
+                                  'tensor elsewhere in the list the operator is treated as real '
+                                  'and imaginary parts are dropped' %
+                                  (key_text(st)[:70], unparse(firsts[0]), firsts[0].value.value.id),
+                                  st.lineno)
+    rep.instance('DTYPE-all-tensors', {'dtype_assignments_checked': n})
     return n
